@@ -358,6 +358,20 @@ def run(ctx):
          'whether or not a response matched a call, the dispatch goes idle only with the transport read registered: a late, duplicate or unsolicited response cannot stall the responses behind it',
          [poll.loc(poll.d)], 'offending exit states (last read outcome, w_wait, drain, at_capacity): %s' % bad)
     R.count('states_explored', res['R']['stats'].get('states', 0))
+    # ... and cannot end the dispatch: it completes Ok only when the transport's read side itself ended (or the write side was closed with nothing in flight),
+    # never because a response was read (same exploration as C10.done, shared through the cache)
+    from .C10 import DoneAut
+    from .shape_common import find_cell_accessors
+    from engine.shape import STAR
+    acc_, fields_ = find_cell_accessors(F, P, 'client::RequestDispatch', lambda t: t.startswith('std::option::Option<') and 'ChannelError' in t)
+    cell_ = sorted(fields_)[0] if fields_ else None
+    cells_ = [((cell_, 'None'),), ((cell_, ('Some', STAR)),)] if cell_ else [()]
+    d_ = run_jobs(F, [{'key': 'done', 'entry': poll.id, 'aut': ('custom', DoneAut), 'acc': acc_, 'cells': cells_}])['done']
+    oks_ = [(ret, e[0]) for (ret, e, lab) in d_['exits'] if isinstance(ret, tuple) and ret[0] == 'Ready' and isinstance(ret[1], tuple) and ret[1][0] == 'Ok']
+    bad_ = sorted({a for ret, a in oks_ if a[0] == 'Progress' and not (a[1] and a[2] is True)}, key=repr)
+    R.ob('C01.6', ('dispatch poll', 'reading a response never ends the dispatch'), bool(oks_) and not bad_,
+         'the dispatch does not complete because a response was read (only because the read side ended, or the write side was closed with nothing in flight): an unmatched response is not mistaken for the end of the stream',
+         [poll.loc(poll.d)], 'offending (R last, closed, table empty): %s' % bad_)
     R.count('completion_send_sites', len(sends))
     if len(sends) < 4:
         raise CannotDecide('only %d completion send sites found (floor 4)' % len(sends))
